@@ -1,6 +1,34 @@
+/-
+  Biobalm — Lean 4 lemma library of the biobalm verification framework (DESIGN.md section 3).
+  See STATUS.md for the table lemma id → theorem → file, and check.sh for the offline build, the
+  audit of axioms and the `leanchecker` replay.
+-/
 import Biobalm.Basic
 import Biobalm.Percolation
 import Biobalm.Dynamics
 import Biobalm.Trap
 import Biobalm.Key
 import Biobalm.Shannon
+import Biobalm.ASP
+import Biobalm.Petri
+import Biobalm.Compose
+import Biobalm.LDOI
+
+/-! Sanity: the library is stated over an arbitrary finite variable type `ι`; the concrete
+vocabulary of DESIGN.md (`State n = Fin n → Bool`, `Space n = Fin n → Option Bool`) is the
+instance `ι = Fin n`. -/
+
+namespace Biobalm
+
+example {n : ℕ} : State (Fin n) = (Fin n → Bool) := rfl
+example {n : ℕ} : Space (Fin n) = (Fin n → Option Bool) := rfl
+
+example {n : ℕ} (f : Network (Fin n)) (S : Space (Fin n)) : Perc f (Perc f S) = Perc f S :=
+  Perc_idem f S
+
+example {n : ℕ} (f : Network (Fin n)) (S : Space (Fin n)) (hS : IsTrap f S) :
+    ∃ A, IsAttractor f A ∧ ∀ x ∈ A, Mem x (Perc f S) := by
+  obtain ⟨A, hA, hAS⟩ := hS.exists_attractor
+  exact ⟨A, hA, hA.mem_perc _ hAS⟩
+
+end Biobalm
